@@ -278,9 +278,18 @@ func verifyPartChecksums(part part.Entity, calculated storage.ChecksumValues) er
 	return nil
 }
 
+// isMultipartETag reports whether etag has the multipart form
+// "<md5 of the part md5s>-<part count>". A plain MD5 ETag never contains a dash.
+func isMultipartETag(etag string) bool {
+	return strings.Contains(etag, "-")
+}
+
 func verifyObjectChecksums(object storage.Object, parts []part.Entity, partChecksums []storage.ChecksumValues) error {
-	// If single part, object checksums should match part checksums
-	if len(parts) == 1 {
+	// If single part, object checksums should match part checksums. Objects
+	// written by AppendObject or by a multipart upload keep their multipart
+	// ETag and checksums even when they consist of one part only, so those are
+	// verified like any other multipart object below.
+	if len(parts) == 1 && !isMultipartETag(object.ETag) {
 		calculated := partChecksums[0]
 
 		if object.ETag != "" && calculated.ETag != nil {
